@@ -107,3 +107,25 @@ def ttl(g: Graph) -> str:
 
 def nt(g: Graph) -> str:
     return g.serialize(format="nt")
+
+
+class Hang(Exception):
+    """the call under test did not return within its wall-clock limit"""
+
+
+import contextlib
+import signal
+
+
+@contextlib.contextmanager
+def time_limit(seconds):
+    """raise Hang in the main thread when the body runs longer than `seconds` (the loops under test are pure python)"""
+    def on_alarm(signum, frame):
+        raise Hang("no return within %ss" % seconds)
+    old = signal.signal(signal.SIGALRM, on_alarm)
+    signal.setitimer(signal.ITIMER_REAL, seconds)
+    try:
+        yield
+    finally:
+        signal.setitimer(signal.ITIMER_REAL, 0)
+        signal.signal(signal.SIGALRM, old)
